@@ -45,6 +45,9 @@ pub fn run(case: &Value, ctx: &Ctx) -> Outcome {
         // BGZF as written by something other than htslib: MTIME stamped, XFL = 2 / 4, OS = 3 (Unix), stored (level 0) blocks
         ("vcf.gz/foreign-header", gen::bgzf_chunks_with(vcf.as_bytes(), 500, 1_700_000_000, 2, 3, flate2::Compression::best())),
         ("bcf.gz/foreign-header", gen::bgzf_chunks_with(&raw, 200, 0, 4, 3, flate2::Compression::fast())),
+        // an annotation-style header: 140 INFO keys in front of GT, whose dictionary index (141) needs a two-byte typed integer
+        ("bcf/large-dictionary", gen::own_bcf_dict(&cols, &recs, 140)),
+        ("bcf.gz/large-dictionary", gen::bgzf_chunks(&gen::own_bcf_dict(&cols, &recs, 140), 4000)),
         ("vcf.gz/stored-blocks", gen::bgzf_chunks_with(vcf.as_bytes(), 300, 0, 0, 0xff, flate2::Compression::none())),
     ];
     let mut base_args: Vec<String> = vec!["create".into()];
